@@ -30,9 +30,53 @@ func c11Queue(r *core.Run, p *core.Prog) {
 		r.Missing(rule, "DBWorkManager.workloadChan")
 		return
 	}
+	// the channel is the field or a local bound to it (`q := make(…); w.workloadChan = q` / `q := w.workloadChan`)
+	aliasesOf := func(info *types.Info, body ast.Node) map[types.Object]bool {
+		al := map[types.Object]bool{}
+		core.Walk(body, true, func(x ast.Node) bool {
+			a, ok := x.(*ast.AssignStmt)
+			if !ok || len(a.Lhs) != len(a.Rhs) {
+				return true
+			}
+			for i := range a.Lhs {
+				if core.SelField(info, a.Lhs[i]) == fCh {
+					if o := core.ObjOf(info, a.Rhs[i]); o != nil {
+						al[o] = true
+					}
+				}
+				if core.SelField(info, a.Rhs[i]) == fCh {
+					if o := core.ObjOf(info, a.Lhs[i]); o != nil {
+						al[o] = true
+					}
+				}
+			}
+			return true
+		})
+		return al
+	}
+	isChan := func(info *types.Info, al map[types.Object]bool, e ast.Expr) bool {
+		if core.SelField(info, e) == fCh {
+			return true
+		}
+		o := core.ObjOf(info, e)
+		return o != nil && al[o]
+	}
+	closesChan := func(fn *core.Fn, body ast.Node) bool {
+		info := fn.Info()
+		al := aliasesOf(info, fn.Decl.Body)
+		found := false
+		core.Walk(body, true, func(x ast.Node) bool {
+			if c, ok := x.(*ast.CallExpr); ok && core.CallName(info, c) == "builtin.close" && len(c.Args) == 1 && isChan(info, al, c.Args[0]) {
+				found = true
+			}
+			return true
+		})
+		return found
+	}
 	nSend := 0
 	for _, fn := range p.Funcs(pkgGoDB) {
 		info := fn.Info()
+		al := aliasesOf(info, fn.Decl.Body)
 		// function bodies: the declaration and every closure in it are analysed separately
 		var bodies []*ast.BlockStmt
 		bodies = append(bodies, fn.Decl.Body)
@@ -45,7 +89,7 @@ func c11Queue(r *core.Run, p *core.Prog) {
 		for _, body := range bodies {
 			var sends []*ast.SendStmt
 			core.Walk(body, false, func(x ast.Node) bool {
-				if s, ok := x.(*ast.SendStmt); ok && core.SelField(info, s.Chan) == fCh {
+				if s, ok := x.(*ast.SendStmt); ok && isChan(info, al, s.Chan) {
 					sends = append(sends, s)
 				}
 				return true
@@ -68,11 +112,11 @@ func c11Queue(r *core.Run, p *core.Prog) {
 			var makePos token.Pos
 			core.Walk(body, false, func(x ast.Node) bool {
 				a, ok := x.(*ast.AssignStmt)
-				if !ok || len(a.Lhs) != 1 || core.SelField(info, a.Lhs[0]) != fCh {
+				if !ok || len(a.Lhs) != 1 || len(a.Rhs) != 1 || !isChan(info, al, a.Lhs[0]) {
 					return true
 				}
 				if c, ok := a.Rhs[0].(*ast.CallExpr); ok && core.CallName(info, c) == "builtin.make" && len(c.Args) == 2 {
-					if la, ok := lenArg(info, stripConv(info, c.Args[1])); ok {
+					if la, ok := lenArg(info, stripConv(info, resolveLocal(info, body, c.Args[1]))); ok {
 						sizedBy, makePos = core.ObjOf(info, la), a.Pos()
 					}
 				}
@@ -86,8 +130,23 @@ func c11Queue(r *core.Run, p *core.Prog) {
 					// the send must iterate over exactly the collection the capacity was taken from
 					inLoopOver := false
 					for _, pn := range core.PathTo(body, s) {
-						if rs, ok := pn.(*ast.RangeStmt); ok && sizedBy != nil && core.ObjOf(info, rs.X) == sizedBy {
-							inLoopOver = true
+						if sizedBy == nil {
+							break
+						}
+						switch l := pn.(type) {
+						case *ast.RangeStmt:
+							if core.ObjOf(info, l.X) == sizedBy {
+								inLoopOver = true
+							}
+						case *ast.ForStmt:
+							// for i := 0; i < len(X); i++ { ch <- X[i] }
+							if b, ok := core.BinOp(l.Cond, token.LSS); ok {
+								if la, ok := lenArg(info, stripConv(info, b.Y)); ok && core.ObjOf(info, la) == sizedBy {
+									if ix, ok := ast.Unparen(s.Value).(*ast.IndexExpr); ok && core.ObjOf(info, ix.X) == sizedBy && core.ObjOf(info, ix.Index) == core.ObjOf(info, b.X) {
+										inLoopOver = true
+									}
+								}
+							}
 						}
 					}
 					okS = sizedBy != nil && makePos < s.Pos() && inLoopOver
@@ -96,21 +155,29 @@ func c11Queue(r *core.Run, p *core.Prog) {
 						why = "the workers receiving from workloadChan are started (ExecuteWorkerReadJobs) only after the function that fills it has returned; this send is synchronous and the channel's capacity is not derived from the number of workloads (fixed capacity from NewDBWorkManager): with more workloads than capacity — more than 32*64 day directories per processing unit — the send blocks forever and the query never ends"
 					}
 				}
-				r.Check(rule, fmt.Sprintf("%s:send@%s", fn.Where(), core.Str(s.Value)), p.Rel(s.Pos()), okS, why)
+				r.Check(rule, fmt.Sprintf("workloadChan:send@%s", core.Str(s.Value)), p.Rel(s.Pos()), okS, why)
 			}
 		}
 	}
 	if nSend == 0 {
 		r.Undecided(rule, "workloadChan:sends", "-", "no send on DBWorkManager.workloadChan found")
 	}
-	// closed on every exit of the producer
+	// closed on every exit of the producer: a top-level defer of CreateWorkerJobs closes the channel, directly, in its
+	// closure, or in a method the closure hands the work to
 	if f := r.MustFunc(rule, pkgGoDB, "DBWorkManager.CreateWorkerJobs"); f != nil {
 		info := f.Info()
 		okClose := false
 		for _, st := range f.Decl.Body.List {
-			if d, ok := st.(*ast.DeferStmt); ok {
-				for _, c := range core.Calls(d, true) {
-					if core.CallName(info, c) == "builtin.close" && core.SelField(info, c.Args[0]) == fCh {
+			d, ok := st.(*ast.DeferStmt)
+			if !ok {
+				continue
+			}
+			if closesChan(f, d) {
+				okClose = true
+			}
+			for _, c := range core.Calls(d, true) {
+				if fo, ok := core.Callee(info, c).(*types.Func); ok {
+					if h := p.FnOf(fo); h != nil && closesChan(h, h.Decl.Body) {
 						okClose = true
 					}
 				}
